@@ -270,7 +270,8 @@ package types
 //@ func (Set) Equal
 //@   props C11
 //@   results r
-//@   ensures r ==> ((bi is Set) && len(s.s) == len(bi.(Set).s) && (forall h int :: has(s.s, h) ==> bi.(Set).Contains#0(s.s[h])))
+//@   ensures sound: r ==> ((bi is Set) && len(s.s) == len(bi.(Set).s) && (forall h int :: has(s.s, h) ==> bi.(Set).Contains#0(s.s[h])))
+//@   ensures complete: !r ==> (!(bi is Set) || len(s.s) != len(bi.(Set).s) || s.hashVal != bi.(Set).hashVal || (exists h int :: has(s.s, h) && !bi.(Set).Contains#0(s.s[h])))
 //@   loop 1
 //@     invariant forall h int :: $done[h] ==> bs.Contains#0(s.s[h])
 
